@@ -200,7 +200,7 @@ def cases(tier):
         for bs, pk in itertools.product(bg_specs, pk_specs):
             if not th and not (isinstance(bs, list) or isinstance(pk, list) or bs.startswith('inst') or pk.startswith('inst')) and (bs, pk) != ('linear', 'pseudo_voigt'):
                 continue  # plain name x name is what 'single' already runs
-            out.append({'kind': 'modelspec', 'spectrum': spec, 'background': bs, 'peak': pk, 'widths': [6.0, 20.0, 40.0] if th else [12.0, 30.0]})
+            out.append({'kind': 'modelspec', 'spectrum': spec, 'background': bs, 'peak': pk, 'widths': [6.0, 20.0, 40.0] if th else [6.0, 12.0, 30.0]})
     # multi_auto ------------------------------------------------------------------------
     layouts = [(0.3, 0.7), (0.45, 0.55), (0.2, 0.5, 0.6), (0.3, 0.38, 0.8)]
     if th:
